@@ -3,4 +3,4 @@
 package lib
 
 func VerifPoint(obj any, label string) {}
-func VerifDone()                      {}
+func VerifDone()                       {}
